@@ -102,13 +102,13 @@ fn w_specs(thorough: bool) -> Vec<FileSpec> {
 		for sk in Sk::ALL {
 			for meta in 0..=5u8 {
 				for ops in &seqs {
-					v.push(FileSpec { codec, level: 0, sk, abs: 2, ops: ops.clone(), meta });
+					v.push(FileSpec { codec, level: 0, sk, abs: 2, ops: ops.clone(), meta, api: false });
 				}
 			}
 			for abs in [0u32, 64 * 1024] {
 				for meta in if thorough { vec![0u8, 4, 5] } else { vec![0u8] } {
 					for ops in &seqs {
-						v.push(FileSpec { codec, level: 0, sk, abs, ops: ops.clone(), meta });
+						v.push(FileSpec { codec, level: 0, sk, abs, ops: ops.clone(), meta, api: false });
 					}
 				}
 			}
@@ -120,7 +120,7 @@ fn w_specs(thorough: bool) -> Vec<FileSpec> {
 		}
 		for (sk, x, abs) in bigs {
 			for meta in [0u8, 4] {
-				v.push(FileSpec { codec, level: 0, sk, abs, ops: vec![Op::S, x.clone(), Op::S, Op::F, x.clone()], meta });
+				v.push(FileSpec { codec, level: 0, sk, abs, ops: vec![Op::S, x.clone(), Op::S, Op::F, x.clone()], meta, api: false });
 			}
 		}
 		// incompressible blocks whose STORED size crosses the encoder's 32 KiB start buffer and its
@@ -139,13 +139,13 @@ fn w_specs(thorough: bool) -> Vec<FileSpec> {
 			(Sk::Str, Op::Big { s: 200000, inc: true }, 200000),
 		];
 		for (sk, x, abs) in noisy {
-			v.push(FileSpec { codec, level: 0, sk, abs, ops: vec![Op::S, x.clone(), Op::S], meta: 0 });
-			v.push(FileSpec { codec, level: 0, sk, abs: abs.max(64 * 1024), ops: vec![x.clone(), Op::F, x.clone()], meta: 4 });
+			v.push(FileSpec { codec, level: 0, sk, abs, ops: vec![Op::S, x.clone(), Op::S], meta: 0, api: false });
+			v.push(FileSpec { codec, level: 0, sk, abs: abs.max(64 * 1024), ops: vec![x.clone(), Op::F, x.clone()], meta: 4, api: false });
 			if thorough {
-				v.push(FileSpec { codec, level: 0, sk, abs: u32::MAX, ops: vec![x.clone(), x.clone(), Op::P], meta: 2 });
+				v.push(FileSpec { codec, level: 0, sk, abs: u32::MAX, ops: vec![x.clone(), x.clone(), Op::P], meta: 2, api: false });
 				if codec.has_levels() {
 					for level in [1u8, 9] {
-						v.push(FileSpec { codec, level, sk, abs, ops: vec![x.clone()], meta: 0 });
+						v.push(FileSpec { codec, level, sk, abs, ops: vec![x.clone()], meta: 0, api: false });
 					}
 				}
 			}
@@ -153,26 +153,68 @@ fn w_specs(thorough: bool) -> Vec<FileSpec> {
 		// growing / shrinking-then-growing incompressible blocks (encoder buffers kept from earlier blocks)
 		let b = |s: usize| Op::Big { s, inc: true };
 		for lvl in if codec == Codec::Zstd { vec![0u8, 1, 22] } else { vec![0u8] } {
-			v.push(FileSpec { codec, level: lvl, sk: Sk::Bytes, abs: 64 * 1024, ops: vec![b(10), Op::F, b(600), Op::F, b(5000), Op::F, b(70000)], meta: 0 });
-			v.push(FileSpec { codec, level: lvl, sk: Sk::Str, abs: 0, ops: vec![Op::S, b(600), b(10), b(5000)], meta: 0 });
-			v.push(FileSpec { codec, level: lvl, sk: Sk::Bytes, abs: 64 * 1024, ops: vec![b(5000), Op::F, b(10), Op::F, Op::PBig { s: 70000, inc: true }], meta: 4 });
+			v.push(FileSpec { codec, level: lvl, sk: Sk::Bytes, abs: 64 * 1024, ops: vec![b(10), Op::F, b(600), Op::F, b(5000), Op::F, b(70000)], meta: 0, api: false });
+			v.push(FileSpec { codec, level: lvl, sk: Sk::Str, abs: 0, ops: vec![Op::S, b(600), b(10), b(5000)], meta: 0, api: false });
+			v.push(FileSpec { codec, level: lvl, sk: Sk::Bytes, abs: 64 * 1024, ops: vec![b(5000), Op::F, b(10), Op::F, Op::PBig { s: 70000, inc: true }], meta: 4, api: false });
 		}
 		// values holding arrays / maps of 0, 1, 1000, 1001, ~5000 elements
 		for sk in Sk::COLL {
 			for n in if thorough { vec![0usize, 1, 999, 1000, 1001, 1002, 5000, 20000] } else { vec![0usize, 1, 1000, 1001, 5000] } {
-				v.push(FileSpec { codec, level: 0, sk, abs: 64 * 1024, ops: vec![Op::S, Op::Coll { n, map: false, push: false }, Op::S], meta: 0 });
+				v.push(FileSpec { codec, level: 0, sk, abs: 64 * 1024, ops: vec![Op::S, Op::Coll { n, map: false, push: false }, Op::S], meta: 0, api: false });
 				if n >= 1000 {
-					v.push(FileSpec { codec, level: 0, sk, abs: 0, ops: vec![Op::Coll { n, map: true, push: false }, Op::Coll { n: 1, map: false, push: true }], meta: 4 });
+					v.push(FileSpec { codec, level: 0, sk, abs: 0, ops: vec![Op::Coll { n, map: true, push: false }, Op::Coll { n: 1, map: false, push: true }], meta: 4, api: false });
 				}
 			}
 			for ops in [vec![], vec![Op::S], vec![Op::S, Op::P], vec![Op::P, Op::F, Op::S]] {
-				v.push(FileSpec { codec, level: 0, sk, abs: 2, ops, meta: 2 });
+				v.push(FileSpec { codec, level: 0, sk, abs: 2, ops, meta: 2, api: false });
 			}
 		}
 		if codec.has_levels() {
 			for level in [1u8, 9, 200] {
-				v.push(FileSpec { codec, level, sk: Sk::Rec, abs: 3000, ops: vec![Op::S, Op::Run { s: 9000, inc: true }, Op::P], meta: 2 });
+				v.push(FileSpec { codec, level, sk: Sk::Rec, abs: 3000, ops: vec![Op::S, Op::Run { s: 9000, inc: true }, Op::P], meta: 2, api: false });
 			}
+		}
+	}
+	v
+}
+
+/// crate-written files through the other writer entry points: default sync marker, write_all
+fn w_variant_specs(thorough: bool) -> Vec<(FileSpec, u8)> {
+	let mut v = Vec::new();
+	let alpha = [Op::S, Op::P, Op::F];
+	let mut seqs: Vec<Vec<Op>> = vec![vec![]];
+	for a in &alpha {
+		seqs.push(vec![a.clone()]);
+		for b in &alpha {
+			seqs.push(vec![a.clone(), b.clone()]);
+			if thorough {
+				for c in &alpha {
+					seqs.push(vec![a.clone(), b.clone(), c.clone()]);
+				}
+			}
+		}
+	}
+	let k64 = 64 * 1024u32;
+	for codec in Codec::ALL {
+		for sk in Sk::ALL.into_iter().chain(Sk::COLL) {
+			for ops in &seqs {
+				for meta in [0u8, 4] {
+					v.push((FileSpec { codec, level: 0, sk, abs: 2, ops: ops.clone(), meta, api: false }, 1));
+				}
+			}
+			for ops in [vec![], vec![Op::S], vec![Op::S, Op::S, Op::S]] {
+				v.push((FileSpec { codec, level: 0, sk, abs: k64, ops, meta: 0, api: false }, 2));
+			}
+		}
+		for (sk, ops) in [
+			(Sk::Bytes, vec![Op::Mid { n: 64, len: 1024, inc: true }]),
+			(Sk::Bytes, vec![Op::S, Op::Big { s: 70000, inc: true }, Op::S]),
+			(Sk::Long, vec![Op::Run { s: 65536, inc: true }]),
+			(Sk::Str, vec![Op::Mid { n: 140, len: 1000, inc: true }]),
+			(Sk::ArrLong, vec![Op::Coll { n: 1001, map: false, push: false }, Op::S]),
+		] {
+			v.push((FileSpec { codec, level: 0, sk, abs: k64, ops: ops.clone(), meta: 0, api: false }, 2));
+			v.push((FileSpec { codec, level: 0, sk, abs: 3000, ops, meta: 2, api: false }, 1));
 		}
 	}
 	v
@@ -247,15 +289,21 @@ fn apache_read(bytes: &[u8]) -> Out<(Vec<Val>, BTreeMap<String, Vec<u8>>)> {
 	})
 }
 
-fn run_w(spec: &FileSpec, thorough: bool, cover: &mut Cover, out: &mut Vec<Violation>, verbose: bool) {
-	let label = spec.label();
-	let replay = json!({"check": "C06", "part": "W", "spec": spec, "thorough": thorough});
+/// `var`: 0 = serialize loop, sync marker pinned; 1 = default (random) sync marker; 2 = the free function write_all
+fn run_w(spec: &FileSpec, var: u8, thorough: bool, cover: &mut Cover, out: &mut Vec<Violation>, verbose: bool) {
+	let label = format!("{}{}", spec.label(), match var { 1 => " [default sync marker: no sync_marker() call]", 2 => " [written by write_all(schema, compression, Vec, values)]", _ => "" });
+	let replay = json!({"check": "C06", "part": "W", "spec": spec, "var": var, "thorough": thorough});
 	let Some((steps, expected)) = c05::plan(spec) else { return };
 	cover.evaluations += 1;
 	cover.impl_runs += 1;
 	cover.states += steps.len() as u64 + 1;
 	cover.transitions += steps.len() as u64;
-	let bytes = match c05::write_file(spec, &steps) {
+	let written = match var {
+		1 => c05::api::write_variant(spec, &steps, c05::api::WVar::DefaultMarker),
+		2 => c05::api::write_variant(spec, &steps, c05::api::WVar::WriteAll),
+		_ => c05::write_file(spec, &steps),
+	};
+	let bytes = match written {
 		Out::Ok(b) => b,
 		Out::Err(e) => return viol(out, "write-err", format!("writer=crate {label}: {}", e.replace('\u{1}', "")), replay),
 		Out::Panic(p) => return viol(out, "write-panic", format!("writer=crate {label}: panicked: {p}"), replay),
@@ -264,7 +312,7 @@ fn run_w(spec: &FileSpec, thorough: bool, cover: &mut Cover, out: &mut Vec<Viola
 	cover.outcomes.insert(hash64(&bytes));
 	let f = match cf_parse(&bytes) {
 		Ok(f) => f,
-		Err(e) => return viol(out, "layout:unparseable", format!("writer=crate {label}: the independent parser rejects the {}-byte file: {e}; first bytes {}", bytes.len(), hex(&bytes[..bytes.len().min(48)])), replay),
+		Err(e) => return viol(out, "layout:unparseable", format!("writer=crate {label}: the independent parser rejects the {}-byte file: {e}{}", bytes.len(), if var == 0 { format!("; first bytes {}", hex(&bytes[..bytes.len().min(48)])) } else { String::new() }), replay),
 	};
 	if verbose {
 		println!("  parsed: metadata keys {:?}, codec {:?}, sync {}, blocks {:?}", f.meta.iter().map(|(k, _)| k.as_str()).collect::<Vec<_>>(), f.codec, hex(&f.sync), f.blocks.iter().map(|b| (b.count, b.raw.len(), b.data.len())).collect::<Vec<_>>());
@@ -300,7 +348,13 @@ fn run_w(spec: &FileSpec, thorough: bool, cover: &mut Cover, out: &mut Vec<Viola
 			viol(out, "layout:user-metadata", format!("writer=crate {label}: user metadata key {k:?} holds {:?}, given [{}]", f.meta_get(k).map(hex), hex(v)), replay.clone());
 		}
 	}
-	if f.sync != SYNC {
+	if var != 0 {
+		// any 16 bytes; the parser has checked that every block ends with the header's marker
+		cover.count(if var == 1 { "W_default_marker_files_with_consistent_marker" } else { "W_write_all_files_with_consistent_marker" }, 1);
+		if f.blocks.len() >= 2 {
+			cover.count("W_random_marker_files_with_2_or_more_blocks", 1);
+		}
+	} else if f.sync != SYNC {
 		viol(out, "layout:sync", format!("writer=crate {label}: header sync marker is {}, the writer was given {}", hex(&f.sync), hex(&SYNC)), replay.clone());
 	}
 	// blocks: count/size consistent with the datums, values equal (sync of every block = header sync: checked by the parser)
@@ -323,7 +377,7 @@ fn run_w(spec: &FileSpec, thorough: bool, cover: &mut Cover, out: &mut Vec<Viola
 		return;
 	}
 	if spec.codec != Codec::Null || f.blocks.len() >= 2 || spec.meta != 0 {
-		cover.nontrivial.insert(hash64(&("W", spec)));
+		cover.nontrivial.insert(hash64(&("W", spec, var)));
 	}
 	if f.blocks.iter().any(|b| b.raw.len() > 8192) {
 		cover.count("W_files_with_block_stored_gt_8KiB", 1);
@@ -775,7 +829,7 @@ fn run_a(a: &ApacheFile, cover: &mut Cover, out: &mut Vec<Violation>, verbose: b
 pub fn run(rep: &mut Report) {
 	let thorough = rep.thorough();
 	rep.rule = format!(
-		"SAE. W (writer side): files written by the crate (sync marker pinned) for ALL operation sequences of length <= {} over {{serialize, push_serialized(2), finish_block}} x 6 codecs x 5 schemas x (approx_block_size 2 x 6 user-metadata variants [none, empty map, {{k:v}} as strings, {{a.b:0xff}}, 3 keys, non-ASCII + reserved-prefix key] + approx_block_size 0 / 64 Ki), plus multi-block files with blocks of 8-70 KB and non-default levels, plus, for every codec, INCOMPRESSIBLE (xorshift) blocks whose stored size exceeds 32 KiB, 64 KiB and 128 KiB (the encoder's start buffer and its doublings) built from one big datum, from 48-140 noisy datums of 1000 bytes, and from runs of small datums, in [S,X,S] and [X,finish,X], plus growing / shrinking-then-growing incompressible blocks (10/600/5000/70000 bytes; zstandard at levels default/1/22), plus schemas array<long> and record{{xs:array<int>,m:map<string>}} with values of 0/1/1000/1001/5000 elements; each taken apart by the independent parser: magic, metadata keys exactly avro.schema/avro.codec/user keys, avro.schema = schema.json() and JSON-equal to the source, avro.codec = specification name, user values intact, header sync = given marker = every block's sync, per-block count/size consistent with the datums, codec framing removed by independent decoders (libflate raw deflate, snap + big-endian CRC-32 of the uncompressed data, streaming bzip2/xz, zstd), values equal; then read back (values + user metadata) by the crate through slice / &[u8] BufRead / BufReader{}. R (reader side): files assembled by the independent writer: value sequences of 0..={} datums x ALL compositions into blocks, each also with one 0-object block at every position, x 6 codecs (+ null with avro.codec ABSENT) x 5 schemas x 4 metadata variants; ALL orders of <= 4 metadata keys (avro.schema, avro.codec, k, avro.extra) x map layouts (one block / one key per block / 1+rest / rest+1) x positive or negative(+byte size) counts x partitions {}; blocks of 8 KB-{} KB; collection schemas with 0/1/1000/1001/5000 elements per value whose arrays/maps are written as one block, blocks of 400, 1000 (negative counts + byte sizes) or 1 item; read by the crate (3 reader kinds): values, end of stream twice, user metadata (non-reserved keys).{} Non-trivial: non-null codec, or >= 2 blocks, or user metadata / non-default metadata layout; distinct files.",
+		"SAE. W (writer side): files written by the crate (sync marker pinned) for ALL operation sequences of length <= {} over {{serialize, push_serialized(2), finish_block}} x 6 codecs x 5 schemas x (approx_block_size 2 x 6 user-metadata variants [none, empty map, {{k:v}} as strings, {{a.b:0xff}}, 3 keys, non-ASCII + reserved-prefix key] + approx_block_size 0 / 64 Ki), plus multi-block files with blocks of 8-70 KB and non-default levels, plus, for every codec, INCOMPRESSIBLE (xorshift) blocks whose stored size exceeds 32 KiB, 64 KiB and 128 KiB (the encoder's start buffer and its doublings) built from one big datum, from 48-140 noisy datums of 1000 bytes, and from runs of small datums, in [S,X,S] and [X,finish,X], plus growing / shrinking-then-growing incompressible blocks (10/600/5000/70000 bytes; zstandard at levels default/1/22), plus schemas array<long> and record{{xs:array<int>,m:map<string>}} with values of 0/1/1000/1001/5000 elements; plus the same layout checks (the marker being any 16 bytes that the header and every block share) on files written WITHOUT sync_marker() (all histories of length <= 2 [thorough 3] x 7 schemas x 6 codecs x 2 metadata variants, and 64-140 KB blocks) and on files written by the free function write_all; each taken apart by the independent parser: magic, metadata keys exactly avro.schema/avro.codec/user keys, avro.schema = schema.json() and JSON-equal to the source, avro.codec = specification name, user values intact, header sync = given marker = every block's sync, per-block count/size consistent with the datums, codec framing removed by independent decoders (libflate raw deflate, snap + big-endian CRC-32 of the uncompressed data, streaming bzip2/xz, zstd), values equal; then read back (values + user metadata) by the crate through slice / &[u8] BufRead / BufReader{}. R (reader side): files assembled by the independent writer: value sequences of 0..={} datums x ALL compositions into blocks, each also with one 0-object block at every position, x 6 codecs (+ null with avro.codec ABSENT) x 5 schemas x 4 metadata variants; ALL orders of <= 4 metadata keys (avro.schema, avro.codec, k, avro.extra) x map layouts (one block / one key per block / 1+rest / rest+1) x positive or negative(+byte size) counts x partitions {}; blocks of 8 KB-{} KB; collection schemas with 0/1/1000/1001/5000 elements per value whose arrays/maps are written as one block, blocks of 400, 1000 (negative counts + byte sizes) or 1 item; read by the crate (3 reader kinds): values, end of stream twice, user metadata (non-reserved keys).{} Non-trivial: non-null codec, or >= 2 blocks, or user metadata / non-default metadata layout; distinct files.",
 		if thorough { 4 } else { 3 },
 		if thorough { "; every file (except zero-byte-datum files, which apache-avro refuses) is also read by apache-avro 0.17 (values and user metadata)" } else { "" },
 		if thorough { 6 } else { 4 },
@@ -790,14 +844,15 @@ pub fn run(rep: &mut Report) {
 	// W
 	let specs = w_specs(thorough);
 	rep.extra.insert("W_files".into(), json!(specs.len()));
-	let chunks: Vec<&[FileSpec]> = specs.chunks(64).collect();
+	let specs: Vec<(FileSpec, u8)> = specs.into_iter().map(|s| (s, 0u8)).chain(w_variant_specs(thorough)).collect();
+	let chunks: Vec<&[(FileSpec, u8)]> = specs.chunks(64).collect();
 	let w_results: Vec<(Cover, Vec<Violation>)> = chunks
 		.par_iter()
 		.map(|c| {
 			let mut cover = Cover::default();
 			let mut out = Vec::new();
-			for s in c.iter() {
-				run_w(s, thorough, &mut cover, &mut out, false);
+			for (s, var) in c.iter() {
+				run_w(s, *var, thorough, &mut cover, &mut out, false);
 			}
 			(cover, out)
 		})
@@ -857,7 +912,7 @@ pub fn run(rep: &mut Report) {
 		}
 	}
 	rep.extra.insert("violation_signatures".into(), json!(per_sig.iter().map(|(k, n)| json!({"signature": k, "cases": n})).collect::<Vec<_>>()));
-	let mut guards = vec!["W_files_written", "W_files_with_block_stored_gt_8KiB", "crate_reads_ok(writer=crate)", "crate_reads_ok(writer=reference(vmodel))", "R_files", "R_files_without_avro.codec", "R_files_metadata_negative_count_blocks", "R_files_metadata_in_several_map_blocks", "R_files_4_metadata_keys", "R_files_with_a_block_of_0_objects", "R_files_with_large_blocks", "R_files_collections_gt_1000_elements_in_several_blocks", "crate_reads_ok_of_collections_gt_1000_elements(writer=crate)", "crate_reads_ok_of_collections_gt_1000_elements(writer=reference(vmodel))"];
+	let mut guards = vec!["W_default_marker_files_with_consistent_marker", "W_write_all_files_with_consistent_marker", "W_random_marker_files_with_2_or_more_blocks", "W_files_written", "W_files_with_block_stored_gt_8KiB", "crate_reads_ok(writer=crate)", "crate_reads_ok(writer=reference(vmodel))", "R_files", "R_files_without_avro.codec", "R_files_metadata_negative_count_blocks", "R_files_metadata_in_several_map_blocks", "R_files_4_metadata_keys", "R_files_with_a_block_of_0_objects", "R_files_with_large_blocks", "R_files_collections_gt_1000_elements_in_several_blocks", "crate_reads_ok_of_collections_gt_1000_elements(writer=crate)", "crate_reads_ok_of_collections_gt_1000_elements(writer=reference(vmodel))"];
 	if thorough {
 		guards.extend(["W_files_read_back_by_apache_avro", "A_files(apache-avro writer)", "crate_reads_ok(writer=apache-avro)", "crate_reads_ok_of_collections_gt_1000_elements(writer=apache-avro)"]);
 	}
@@ -882,7 +937,7 @@ pub fn replay(v: &Value) -> i32 {
 				}
 			};
 			println!("replaying W: crate writes {}", spec.label());
-			run_w(&spec, r["thorough"].as_bool().unwrap_or(true), &mut cover, &mut out, true);
+			run_w(&spec, r["var"].as_u64().unwrap_or(0) as u8, r["thorough"].as_bool().unwrap_or(true), &mut cover, &mut out, true);
 		}
 		Some("R") => {
 			let f: Foreign = match serde_json::from_value(r["file"].clone()) {
